@@ -124,11 +124,13 @@ CHECKS = {
    text="Proof: Coq theorems: a triggered panic press (mapped to panic, not completing the exit sequence, no up/down pair held) in ANY state emits exactly "
         "CC 123 + 128 Note Offs on the current channel and changes only the key/action trackers (C13_burst); the burst has 129 messages and adds "
         "nothing to any receiver state (C13_burst_shape); for every history h1 and EVERY continuation h2, inserting the panic key's press+release "
-        "changes no later output and not the final state (C13_transparent). Tie to /repo: panic inserted at every admissible position of base "
-        "histories; each variant and its panic-free twin run on the real device; burst bytes and twin equality (later outputs, clean-up, State()) "
+        "changes no later output and not the final state (C13_transparent; when another key mapped to panic is held at that moment the final "
+        "states agree on everything but Panic's membership in the action tracker, which nothing ever reads: C13_transparent_general, "
+        "C13_transparent_observables, by a simulation relation preserved by every event, C13_step_sim). Tie to /repo: panic inserted at every "
+        "admissible position of base histories (also with a second panic key held); each variant and its panic-free twin run on the real device; burst bytes and twin equality (later outputs, clean-up, State()) "
         "checked in coqc.",
-   note="Trusted: Coq kernel + VM; hand-written device model (the MIDI-input tracker that panic also clears belongs to C17). C13_transparent assumes no other panic source is engaged at that moment. No axioms.",
-   technique="Coq proof (exact state round-trip) + twin-history differential correspondence",
+   note="Trusted: Coq kernel + VM; hand-written device model (the MIDI-input tracker that panic also clears belongs to C17). No axioms.",
+   technique="Coq proof (exact state round-trip, simulation relation) + twin-history differential correspondence",
    design="§5 C13"),
 
  "C06": dict(
